@@ -1,36 +1,1832 @@
-//! probe (temporary)
-use gluon::ThreadExt;
-use gvh::mg;
+//! C12 — precompiled bytecode behaves like the source it came from.
+//!
+//! For generated `gvh::mg` programs (both printer styles) and corpus files (corpus/C12/*.glu, /repo/std/*.glu):
+//!  (1) run from source (`mg::run`);
+//!  (2) `compile_to_bytecode` (src/lib.rs:550) to serde_json, bincode standard() (varint) and bincode legacy()
+//!      (fixed width); load with `load_bytecode` (src/lib.rs:577) and with `Precompiled(..).run_expr`
+//!      (compiler_pipeline.rs:1030, the path the repository's own `precompile` test uses) into the SAME vm and
+//!      into a FRESH vm (dependencies imported first) and compare the canonical outcome (value, error class,
+//!      effect log) with (1) — the property itself;
+//!  (3) skeleton tie with the extracted Coq model (coq/extract/c12): the (args, max_stack_size, instructions,
+//!      inner functions, strings) tree is read off the JSON serialisation; the model's `enc_fn` bytes (both
+//!      integer encodings) must equal the bytes bincode produces for the same pieces, and those pieces must occur,
+//!      in order, inside the real bincode serialisation of the whole module;
+//!  (4) robustness: truncations at every 1/64 of the length and single-field corruptions of every serialised
+//!      form are loaded in CHILD processes with a watchdog; anything but `Err(..)`/a clean runtime error/a value
+//!      (panic, abort, signal, hang) is a violation attributed to the exact corrupted input.
+//!
+//! Files written into --out: model_in.txt / impl_out.txt / cases.txt (skeleton tie), findings.jsonl (one JSON
+//! object per distinct violation key), stats.json.
+use gluon::compiler_pipeline::{Executable, Precompiled};
+use gluon::vm::api::{Hole, OpaqueValue};
+use gluon::{RootedThread, ThreadExt};
+use gvh::mg::{self, ast::Program, generate::GenConfig, print::Style, run::{ErrKind, Outcome, VmOptions}};
+use gvh::out::{fnv, Args, Hist};
+use gvh::rng::Rng;
+use serde::ser::{self, Serialize, Serializer};
+use std::collections::{BTreeMap, HashSet};
+use std::io::{BufRead, Write};
+use std::panic::{catch_unwind, AssertUnwindSafe};
+use std::sync::{mpsc, Arc, Mutex};
+use std::time::{Duration, Instant};
 
-fn main() {
-    let src = std::env::args().nth(1).unwrap_or_else(|| "let f x = x #Int+ 1\n{ a = f 2, s = \"hi\", g = 1.5 }".to_string());
-    let vm = mg::run::new_vm();
-    let mut buf = Vec::new();
-    {
-        let mut ser = serde_json::Serializer::new(&mut buf);
-        let r = futures::executor::block_on(vm.compile_to_bytecode("test", &src, &mut ser));
-        match r {
-            Ok(_) => {}
-            Err(e) => {
-                println!("compile err: {}", match e { gluon::either::Either::Left(e) => e.to_string(), gluon::either::Either::Right(e) => e.to_string() });
-                return;
+/// module name used for `compile_to_bytecode` and for loading (run_expr insists that they match)
+const NAME: &str = "mgpre";
+
+// ------------------------------------------------------------------------------------------------
+// bincode 2 does not export its serde `Serializer` type; it can only be reached from inside
+// `Serialize::serialize<S>`, where `S: Send` and `S::Error: 'static` (required by
+// `compile_to_bytecode`) are not known.  `Ad` forwards every call of the top-level serializer to `S`
+// and converts its errors into an owned message.  Nested values are serialised by `S` itself.
+// The value never leaves this thread (`block_on`), so the `Send` assertion is never relied upon.
+struct Ad<S>(S);
+unsafe impl<S> Send for Ad<S> {}
+#[derive(Debug)]
+struct AdErr(String);
+impl std::fmt::Display for AdErr {
+    fn fmt(&self, f: &mut std::fmt::Formatter) -> std::fmt::Result {
+        f.write_str(&self.0)
+    }
+}
+impl std::error::Error for AdErr {}
+impl ser::Error for AdErr {
+    fn custom<T: std::fmt::Display>(msg: T) -> Self {
+        AdErr(msg.to_string())
+    }
+}
+fn cv<E: std::fmt::Display>(e: E) -> AdErr {
+    AdErr(e.to_string())
+}
+macro_rules! prim {
+    ($($f:ident : $t:ty),*) => { $( fn $f(self, v: $t) -> Result<S::Ok, AdErr> { self.0.$f(v).map_err(cv) } )* };
+}
+impl<S: Serializer> Serializer for Ad<S> {
+    type Ok = S::Ok;
+    type Error = AdErr;
+    type SerializeSeq = Ad<S::SerializeSeq>;
+    type SerializeTuple = Ad<S::SerializeTuple>;
+    type SerializeTupleStruct = Ad<S::SerializeTupleStruct>;
+    type SerializeTupleVariant = Ad<S::SerializeTupleVariant>;
+    type SerializeMap = Ad<S::SerializeMap>;
+    type SerializeStruct = Ad<S::SerializeStruct>;
+    type SerializeStructVariant = Ad<S::SerializeStructVariant>;
+    prim!(serialize_bool: bool, serialize_i8: i8, serialize_i16: i16, serialize_i32: i32, serialize_i64: i64,
+          serialize_u8: u8, serialize_u16: u16, serialize_u32: u32, serialize_u64: u64, serialize_f32: f32,
+          serialize_f64: f64, serialize_char: char, serialize_str: &str, serialize_bytes: &[u8]);
+    fn serialize_none(self) -> Result<S::Ok, AdErr> {
+        self.0.serialize_none().map_err(cv)
+    }
+    fn serialize_some<T: Serialize + ?Sized>(self, v: &T) -> Result<S::Ok, AdErr> {
+        self.0.serialize_some(v).map_err(cv)
+    }
+    fn serialize_unit(self) -> Result<S::Ok, AdErr> {
+        self.0.serialize_unit().map_err(cv)
+    }
+    fn serialize_unit_struct(self, n: &'static str) -> Result<S::Ok, AdErr> {
+        self.0.serialize_unit_struct(n).map_err(cv)
+    }
+    fn serialize_unit_variant(self, n: &'static str, i: u32, v: &'static str) -> Result<S::Ok, AdErr> {
+        self.0.serialize_unit_variant(n, i, v).map_err(cv)
+    }
+    fn serialize_newtype_struct<T: Serialize + ?Sized>(self, n: &'static str, v: &T) -> Result<S::Ok, AdErr> {
+        self.0.serialize_newtype_struct(n, v).map_err(cv)
+    }
+    fn serialize_newtype_variant<T: Serialize + ?Sized>(self, n: &'static str, i: u32, vn: &'static str, v: &T) -> Result<S::Ok, AdErr> {
+        self.0.serialize_newtype_variant(n, i, vn, v).map_err(cv)
+    }
+    fn serialize_seq(self, len: Option<usize>) -> Result<Self::SerializeSeq, AdErr> {
+        self.0.serialize_seq(len).map(Ad).map_err(cv)
+    }
+    fn serialize_tuple(self, len: usize) -> Result<Self::SerializeTuple, AdErr> {
+        self.0.serialize_tuple(len).map(Ad).map_err(cv)
+    }
+    fn serialize_tuple_struct(self, n: &'static str, len: usize) -> Result<Self::SerializeTupleStruct, AdErr> {
+        self.0.serialize_tuple_struct(n, len).map(Ad).map_err(cv)
+    }
+    fn serialize_tuple_variant(self, n: &'static str, i: u32, v: &'static str, len: usize) -> Result<Self::SerializeTupleVariant, AdErr> {
+        self.0.serialize_tuple_variant(n, i, v, len).map(Ad).map_err(cv)
+    }
+    fn serialize_map(self, len: Option<usize>) -> Result<Self::SerializeMap, AdErr> {
+        self.0.serialize_map(len).map(Ad).map_err(cv)
+    }
+    fn serialize_struct(self, n: &'static str, len: usize) -> Result<Self::SerializeStruct, AdErr> {
+        self.0.serialize_struct(n, len).map(Ad).map_err(cv)
+    }
+    fn serialize_struct_variant(self, n: &'static str, i: u32, v: &'static str, len: usize) -> Result<Self::SerializeStructVariant, AdErr> {
+        self.0.serialize_struct_variant(n, i, v, len).map(Ad).map_err(cv)
+    }
+    fn is_human_readable(&self) -> bool {
+        self.0.is_human_readable()
+    }
+}
+impl<X: ser::SerializeSeq> ser::SerializeSeq for Ad<X> {
+    type Ok = X::Ok;
+    type Error = AdErr;
+    fn serialize_element<T: Serialize + ?Sized>(&mut self, v: &T) -> Result<(), AdErr> {
+        self.0.serialize_element(v).map_err(cv)
+    }
+    fn end(self) -> Result<X::Ok, AdErr> {
+        self.0.end().map_err(cv)
+    }
+}
+impl<X: ser::SerializeTuple> ser::SerializeTuple for Ad<X> {
+    type Ok = X::Ok;
+    type Error = AdErr;
+    fn serialize_element<T: Serialize + ?Sized>(&mut self, v: &T) -> Result<(), AdErr> {
+        self.0.serialize_element(v).map_err(cv)
+    }
+    fn end(self) -> Result<X::Ok, AdErr> {
+        self.0.end().map_err(cv)
+    }
+}
+impl<X: ser::SerializeTupleStruct> ser::SerializeTupleStruct for Ad<X> {
+    type Ok = X::Ok;
+    type Error = AdErr;
+    fn serialize_field<T: Serialize + ?Sized>(&mut self, v: &T) -> Result<(), AdErr> {
+        self.0.serialize_field(v).map_err(cv)
+    }
+    fn end(self) -> Result<X::Ok, AdErr> {
+        self.0.end().map_err(cv)
+    }
+}
+impl<X: ser::SerializeTupleVariant> ser::SerializeTupleVariant for Ad<X> {
+    type Ok = X::Ok;
+    type Error = AdErr;
+    fn serialize_field<T: Serialize + ?Sized>(&mut self, v: &T) -> Result<(), AdErr> {
+        self.0.serialize_field(v).map_err(cv)
+    }
+    fn end(self) -> Result<X::Ok, AdErr> {
+        self.0.end().map_err(cv)
+    }
+}
+impl<X: ser::SerializeMap> ser::SerializeMap for Ad<X> {
+    type Ok = X::Ok;
+    type Error = AdErr;
+    fn serialize_key<T: Serialize + ?Sized>(&mut self, k: &T) -> Result<(), AdErr> {
+        self.0.serialize_key(k).map_err(cv)
+    }
+    fn serialize_value<T: Serialize + ?Sized>(&mut self, v: &T) -> Result<(), AdErr> {
+        self.0.serialize_value(v).map_err(cv)
+    }
+    fn end(self) -> Result<X::Ok, AdErr> {
+        self.0.end().map_err(cv)
+    }
+}
+impl<X: ser::SerializeStruct> ser::SerializeStruct for Ad<X> {
+    type Ok = X::Ok;
+    type Error = AdErr;
+    fn serialize_field<T: Serialize + ?Sized>(&mut self, k: &'static str, v: &T) -> Result<(), AdErr> {
+        self.0.serialize_field(k, v).map_err(cv)
+    }
+    fn end(self) -> Result<X::Ok, AdErr> {
+        self.0.end().map_err(cv)
+    }
+}
+impl<X: ser::SerializeStructVariant> ser::SerializeStructVariant for Ad<X> {
+    type Ok = X::Ok;
+    type Error = AdErr;
+    fn serialize_field<T: Serialize + ?Sized>(&mut self, k: &'static str, v: &T) -> Result<(), AdErr> {
+        self.0.serialize_field(k, v).map_err(cv)
+    }
+    fn end(self) -> Result<X::Ok, AdErr> {
+        self.0.end().map_err(cv)
+    }
+}
+
+/// `Serialize` = "compile `src` with `compile_to_bytecode` into whatever serializer asks".
+struct CompileJob<'a> {
+    vm: &'a RootedThread,
+    src: &'a str,
+    front_end_error: std::cell::RefCell<Option<gluon::Error>>,
+}
+impl Serialize for CompileJob<'_> {
+    fn serialize<S: Serializer>(&self, s: S) -> Result<S::Ok, S::Error> {
+        match futures::executor::block_on(self.vm.compile_to_bytecode(NAME, self.src, Ad(s))) {
+            Ok(ok) => Ok(ok),
+            Err(gluon::either::Either::Left(e)) => {
+                *self.front_end_error.borrow_mut() = Some(e);
+                Err(ser::Error::custom("front end refused the program"))
+            }
+            Err(gluon::either::Either::Right(e)) => Err(ser::Error::custom(e.0)),
+        }
+    }
+}
+
+// ------------------------------------------------------------------------------------------------
+#[derive(Clone, Copy, PartialEq, Eq, Debug)]
+enum Fmt {
+    Json,
+    BinVar,
+    BinFix,
+}
+impl Fmt {
+    fn name(self) -> &'static str {
+        match self {
+            Fmt::Json => "json",
+            Fmt::BinVar => "bincode-varint",
+            Fmt::BinFix => "bincode-fixed",
+        }
+    }
+    fn parse(s: &str) -> Fmt {
+        match s {
+            "json" => Fmt::Json,
+            "bincode-varint" => Fmt::BinVar,
+            _ => Fmt::BinFix,
+        }
+    }
+    fn all() -> [Fmt; 3] {
+        [Fmt::Json, Fmt::BinVar, Fmt::BinFix]
+    }
+}
+#[derive(Clone, Copy, PartialEq, Eq, Debug)]
+enum Api {
+    /// `ThreadExt::load_bytecode` followed by `get_global`
+    Load,
+    /// `Precompiled(de).run_expr`
+    Run,
+}
+impl Api {
+    fn name(self) -> &'static str {
+        match self {
+            Api::Load => "load_bytecode",
+            Api::Run => "run_expr",
+        }
+    }
+    fn parse(s: &str) -> Api {
+        if s == "load_bytecode" { Api::Load } else { Api::Run }
+    }
+}
+
+enum CompileError {
+    /// parse / typecheck / macro error (or a host panic inside the front end): the program is skipped
+    FrontEnd(String),
+    /// the serializer refused (e.g. a non-finite float in JSON)
+    Ser(String),
+}
+
+fn compile(vm: &RootedThread, src: &str, fmt: Fmt) -> Result<Vec<u8>, CompileError> {
+    let r = catch_unwind(AssertUnwindSafe(|| -> Result<Vec<u8>, CompileError> {
+        match fmt {
+            Fmt::Json => {
+                let mut buf = Vec::new();
+                let r = {
+                    let mut ser = serde_json::Serializer::new(&mut buf);
+                    futures::executor::block_on(vm.compile_to_bytecode(NAME, src, &mut ser))
+                };
+                match r {
+                    Ok(()) => Ok(buf),
+                    Err(gluon::either::Either::Left(e)) => Err(CompileError::FrontEnd(e.to_string())),
+                    Err(gluon::either::Either::Right(e)) => Err(CompileError::Ser(e.to_string())),
+                }
+            }
+            Fmt::BinVar | Fmt::BinFix => {
+                let job = CompileJob { vm, src, front_end_error: Default::default() };
+                let r = if fmt == Fmt::BinVar {
+                    bincode::serde::encode_to_vec(&job, bincode::config::standard())
+                } else {
+                    bincode::serde::encode_to_vec(&job, bincode::config::legacy())
+                };
+                match r {
+                    Ok(b) => Ok(b),
+                    Err(e) => match job.front_end_error.borrow_mut().take() {
+                        Some(fe) => Err(CompileError::FrontEnd(fe.to_string())),
+                        None => Err(CompileError::Ser(e.to_string())),
+                    },
+                }
+            }
+        }
+    }));
+    match r {
+        Ok(x) => x,
+        Err(p) => Err(CompileError::FrontEnd(format!("host panic: {}", panic_msg(&p)))),
+    }
+}
+
+fn panic_msg(p: &Box<dyn std::any::Any + Send>) -> String {
+    if let Some(s) = p.downcast_ref::<String>() {
+        s.clone()
+    } else if let Some(s) = p.downcast_ref::<&str>() {
+        s.to_string()
+    } else {
+        "panic".to_string()
+    }
+}
+
+type Render<'a> = &'a dyn Fn(&gluon::Thread, gluon::vm::Variants<'_>) -> String;
+
+/// What loading (and thereby evaluating) a serialised module gave.
+enum Loaded {
+    Out(Outcome),
+    /// a Rust panic was caught: the vm must not be used any more
+    Panic(String),
+}
+
+fn load(vm: &RootedThread, fmt: Fmt, api: Api, bytes: &[u8], render: Render) -> Loaded {
+    mg::run::log_clear();
+    let r = catch_unwind(AssertUnwindSafe(|| -> Result<String, gluon::Error> {
+        macro_rules! go {
+            ($de_run:expr, $de_load:expr) => {
+                match api {
+                    Api::Run => {
+                        let mut db = vm.get_database();
+                        let mut compiler = vm.module_compiler(&mut db);
+                        let ev = futures::executor::block_on(Precompiled($de_run).run_expr(&mut compiler, &**vm, NAME, "", ()))?;
+                        Ok(render(vm, ev.value.get_variant()))
+                    }
+                    Api::Load => {
+                        futures::executor::block_on(vm.load_bytecode(NAME, $de_load))?;
+                        let v: OpaqueValue<RootedThread, Hole> = vm.get_global(NAME)?;
+                        Ok(render(vm, v.get_variant()))
+                    }
+                }
+            };
+        }
+        match fmt {
+            Fmt::Json => {
+                let mut de1 = serde_json::Deserializer::from_slice(bytes);
+                let mut de2 = serde_json::Deserializer::from_reader(std::io::Cursor::new(bytes.to_vec()));
+                go!(&mut de1, &mut de2)
+            }
+            Fmt::BinVar => {
+                let mut d1 = bincode::serde::OwnedSerdeDecoder::from_reader(bincode::de::read::SliceReader::new(bytes), bincode::config::standard());
+                let mut d2 = bincode::serde::OwnedSerdeDecoder::from_reader(bincode::de::read::SliceReader::new(bytes), bincode::config::standard());
+                go!(d1.as_deserializer(), d2.as_deserializer())
+            }
+            Fmt::BinFix => {
+                let mut d1 = bincode::serde::OwnedSerdeDecoder::from_reader(bincode::de::read::SliceReader::new(bytes), bincode::config::legacy());
+                let mut d2 = bincode::serde::OwnedSerdeDecoder::from_reader(bincode::de::read::SliceReader::new(bytes), bincode::config::legacy());
+                go!(d1.as_deserializer(), d2.as_deserializer())
+            }
+        }
+    }));
+    let log = mg::run::log_take();
+    match r {
+        Ok(Ok(s)) => Loaded::Out(Outcome::Val(s, log)),
+        Ok(Err(e)) => Loaded::Out(Outcome::Err(mg::run::classify(&e), log)),
+        Err(p) => Loaded::Panic(panic_msg(&p)),
+    }
+}
+
+fn new_vm(prelude: bool) -> RootedThread {
+    mg::run::new_vm_with(&VmOptions { prelude, optimize: None })
+}
+
+/// Imports `deps` (module names) so that the globals a serialised module refers to exist.
+fn preload(vm: &RootedThread, deps: &[String]) {
+    for d in deps {
+        let _ = catch_unwind(AssertUnwindSafe(|| {
+            let _ = vm.run_expr::<OpaqueValue<RootedThread, Hole>>("dep", &format!("import! {}", d));
+        }));
+    }
+    mg::run::log_clear();
+}
+
+// ------------------------------------------------------------------------------------------------
+// skeleton (3)
+
+#[derive(Clone, Debug)]
+struct SkFn {
+    args: u32,
+    mss: u32,
+    /// instructions as JSON values (externally tagged)
+    instrs: Vec<serde_json::Value>,
+    inner: Vec<SkFn>,
+    strings: Vec<String>,
+}
+
+fn sk_of_json(f: &serde_json::Value) -> Result<SkFn, String> {
+    let u = |k: &str| -> Result<u32, String> { f.get(k).and_then(|v| v.as_u64()).map(|v| v as u32).ok_or(format!("function without `{}`", k)) };
+    let arr = |k: &str| -> Result<&Vec<serde_json::Value>, String> { f.get(k).and_then(|v| v.as_array()).ok_or(format!("function without array `{}`", k)) };
+    let mut inner = vec![];
+    for g in arr("inner_functions")? {
+        inner.push(sk_of_json(g)?);
+    }
+    let mut strings = vec![];
+    for s in arr("strings")? {
+        strings.push(s.as_str().ok_or("string constant is not a JSON string")?.to_string());
+    }
+    Ok(SkFn { args: u("args")?, mss: u("max_stack_size")?, instrs: arr("instructions")?.clone(), inner, strings })
+}
+
+/// Model-driver rendering: `fn A M NI instr* NF fn* NS str*`, instr = `Name K (field value)*`
+/// (`_` as the field name of a newtype variant; a float as `f<bit pattern>`), str = hex or `-`.
+fn sk_model(f: &SkFn, out: &mut String) -> Result<(), String> {
+    out.push_str(&format!("fn {} {} {}", f.args, f.mss, f.instrs.len()));
+    for i in &f.instrs {
+        match i {
+            serde_json::Value::String(n) => out.push_str(&format!(" {} 0", n)),
+            serde_json::Value::Object(m) if m.len() == 1 => {
+                let (n, body) = m.iter().next().unwrap();
+                match body {
+                    serde_json::Value::Object(fs) => {
+                        out.push_str(&format!(" {} {}", n, fs.len()));
+                        for (k, v) in fs {
+                            out.push_str(&format!(" {} {}", k, num(v)?));
+                        }
+                    }
+                    v => out.push_str(&format!(" {} 1 _ {}", n, num(v)?)),
+                }
+            }
+            other => return Err(format!("unexpected instruction shape {}", other)),
+        }
+    }
+    out.push_str(&format!(" {}", f.inner.len()));
+    for g in &f.inner {
+        out.push(' ');
+        sk_model(g, out)?;
+    }
+    out.push_str(&format!(" {}", f.strings.len()));
+    for s in &f.strings {
+        out.push(' ');
+        if s.is_empty() { out.push('-') } else { out.push_str(&hex(s.as_bytes())) }
+    }
+    Ok(())
+}
+
+fn num(v: &serde_json::Value) -> Result<String, String> {
+    match v {
+        serde_json::Value::Number(n) => {
+            if let Some(i) = n.as_i64() {
+                Ok(i.to_string())
+            } else if let Some(u) = n.as_u64() {
+                Ok(u.to_string())
+            } else {
+                // a float field: hand the model its bit pattern
+                Ok(format!("f{}", n.as_f64().ok_or("number")?.to_bits()))
+            }
+        }
+        other => Err(format!("instruction field is not a number: {}", other)),
+    }
+}
+
+fn hex(b: &[u8]) -> String {
+    let mut s = String::with_capacity(b.len() * 2);
+    for x in b {
+        s.push_str(&format!("{:02x}", x));
+    }
+    s
+}
+fn unhex(s: &str) -> Vec<u8> {
+    (0..s.len() / 2).map(|i| u8::from_str_radix(&s[2 * i..2 * i + 2], 16).unwrap_or(0)).collect()
+}
+
+fn benc<T: Serialize>(v: &T, fixed: bool) -> Vec<u8> {
+    if fixed { bincode::serde::encode_to_vec(v, bincode::config::legacy()) } else { bincode::serde::encode_to_vec(v, bincode::config::standard()) }.expect("bincode encode")
+}
+
+type Instr = gluon::vm::types::Instruction;
+
+fn typed_instrs(f: &SkFn) -> Result<Vec<Instr>, String> {
+    serde_json::from_value(serde_json::Value::Array(f.instrs.clone())).map_err(|e| format!("instructions do not deserialise: {}", e))
+}
+
+/// The bytes bincode itself produces for the skeleton pieces, assembled in the model's order.
+/// `pieces` receives (function number in preorder, kind, bytes) in the serialisation order of the real
+/// structs; they must be found, in that order, inside the serialisation of the whole module.
+fn real_skeleton_bytes(f: &SkFn, fixed: bool, counter: &mut usize, pieces: &mut Vec<(usize, &'static str, Vec<u8>)>) -> Result<Vec<u8>, String> {
+    let me = *counter;
+    *counter += 1;
+    let instrs = typed_instrs(f)?;
+    let mut out = benc(&f.args, fixed);
+    out.extend(benc(&f.mss, fixed));
+    pieces.push((me, "header", out.clone()));
+    let ib = benc(&instrs, fixed);
+    // bincode must also read them back
+    let back: Vec<Instr> = if fixed {
+        bincode::serde::decode_from_slice(&ib, bincode::config::legacy()).map(|x| x.0)
+    } else {
+        bincode::serde::decode_from_slice(&ib, bincode::config::standard()).map(|x| x.0)
+    }
+    .map_err(|e| format!("bincode cannot read its own instruction bytes: {}", e))?;
+    if back != instrs {
+        return Err("bincode round trip of the instruction vector differs".into());
+    }
+    pieces.push((me, "instructions", ib.clone()));
+    out.extend(ib);
+    out.extend(benc(&(f.inner.len() as u64), fixed));
+    for g in &f.inner {
+        out.extend(real_skeleton_bytes(g, fixed, counter, pieces)?);
+    }
+    let sb = benc(&f.strings, fixed);
+    pieces.push((me, "strings", sb.clone()));
+    out.extend(sb);
+    Ok(out)
+}
+
+fn find_from(hay: &[u8], needle: &[u8], from: usize) -> Option<usize> {
+    if needle.is_empty() {
+        return Some(from);
+    }
+    if hay.len() < needle.len() || from > hay.len() - needle.len() {
+        return None;
+    }
+    (from..=hay.len() - needle.len()).find(|&i| &hay[i..i + needle.len()] == needle)
+}
+
+/// positions of `pieces` (in order, non-overlapping) inside `module`
+fn embed(module: &[u8], pieces: &[(usize, &'static str, Vec<u8>)]) -> Option<Vec<usize>> {
+    let mut at = 0;
+    let mut res = vec![];
+    for (_, _, p) in pieces {
+        let i = find_from(module, p, at)?;
+        res.push(i);
+        at = i + p.len();
+    }
+    Some(res)
+}
+
+// ------------------------------------------------------------------------------------------------
+// corruptions (4)
+
+#[derive(Clone, Debug)]
+struct Corrupt {
+    /// `truncated` | `corrupt:<field class>`
+    class: String,
+    detail: String,
+    bytes: Vec<u8>,
+}
+
+fn truncations(bytes: &[u8]) -> Vec<Corrupt> {
+    let n = bytes.len();
+    let mut cuts: Vec<usize> = (0..64).map(|k| n * k / 64).collect();
+    cuts.push(n.saturating_sub(1));
+    cuts.sort();
+    cuts.dedup();
+    cuts.into_iter().filter(|c| *c < n).map(|c| Corrupt { class: "truncated".into(), detail: format!("first {} of {} bytes", c, n), bytes: bytes[..c].to_vec() }).collect()
+}
+
+// ---- a JSON reader that keeps byte spans and key order (serde_json::Value sorts object keys; the shared-node
+// scheme of gluon's serialisation — {"Marked":[id, x]} before {"Reference": id} — depends on the order, so
+// corruptions are spliced into the ORIGINAL text) ----
+enum JKind {
+    Obj(Vec<(String, JNode)>),
+    Arr(Vec<JNode>),
+    Str,
+    Other,
+}
+struct JNode {
+    start: usize,
+    end: usize,
+    kind: JKind,
+}
+impl JNode {
+    fn get(&self, key: &str) -> Option<&JNode> {
+        match &self.kind {
+            JKind::Obj(fs) => fs.iter().find(|(k, _)| k == key).map(|(_, v)| v),
+            _ => None,
+        }
+    }
+    fn at(&self, i: usize) -> Option<&JNode> {
+        match &self.kind {
+            JKind::Arr(a) => a.get(i),
+            _ => None,
+        }
+    }
+    fn len(&self) -> usize {
+        match &self.kind {
+            JKind::Arr(a) => a.len(),
+            JKind::Obj(o) => o.len(),
+            _ => 0,
+        }
+    }
+    fn text<'a>(&self, t: &'a [u8]) -> &'a [u8] {
+        &t[self.start..self.end]
+    }
+}
+struct JParser<'a> {
+    t: &'a [u8],
+    i: usize,
+}
+impl<'a> JParser<'a> {
+    fn ws(&mut self) {
+        while self.i < self.t.len() && (self.t[self.i] as char).is_ascii_whitespace() {
+            self.i += 1;
+        }
+    }
+    fn string(&mut self) -> Option<String> {
+        // at an opening quote; returns the raw (still escaped) content
+        let s = self.i + 1;
+        let mut j = s;
+        while j < self.t.len() && self.t[j] != b'"' {
+            if self.t[j] == b'\\' {
+                j += 1;
+            }
+            j += 1;
+        }
+        if j >= self.t.len() {
+            return None;
+        }
+        self.i = j + 1;
+        Some(String::from_utf8_lossy(&self.t[s..j]).into_owned())
+    }
+    fn value(&mut self) -> Option<JNode> {
+        self.ws();
+        let start = self.i;
+        match *self.t.get(self.i)? {
+            b'{' => {
+                self.i += 1;
+                let mut fs = vec![];
+                loop {
+                    self.ws();
+                    match *self.t.get(self.i)? {
+                        b'}' => {
+                            self.i += 1;
+                            break;
+                        }
+                        b',' => self.i += 1,
+                        b'"' => {
+                            let k = self.string()?;
+                            self.ws();
+                            if *self.t.get(self.i)? != b':' {
+                                return None;
+                            }
+                            self.i += 1;
+                            let v = self.value()?;
+                            fs.push((k, v));
+                        }
+                        _ => return None,
+                    }
+                }
+                Some(JNode { start, end: self.i, kind: JKind::Obj(fs) })
+            }
+            b'[' => {
+                self.i += 1;
+                let mut a = vec![];
+                loop {
+                    self.ws();
+                    match *self.t.get(self.i)? {
+                        b']' => {
+                            self.i += 1;
+                            break;
+                        }
+                        b',' => self.i += 1,
+                        _ => a.push(self.value()?),
+                    }
+                }
+                Some(JNode { start, end: self.i, kind: JKind::Arr(a) })
+            }
+            b'"' => {
+                self.string()?;
+                Some(JNode { start, end: self.i, kind: JKind::Str })
+            }
+            _ => {
+                while self.i < self.t.len() && !matches!(self.t[self.i], b',' | b'}' | b']') && !(self.t[self.i] as char).is_ascii_whitespace() {
+                    self.i += 1;
+                }
+                if self.i == start {
+                    return None;
+                }
+                Some(JNode { start, end: self.i, kind: JKind::Other })
             }
         }
     }
-    println!("{}", String::from_utf8_lossy(&buf));
-    {
-        let mut de = serde_json::Deserializer::from_reader(std::io::Cursor::new(buf.clone()));
-        let r = futures::executor::block_on(vm.load_bytecode("test", &mut de));
-        println!("load_bytecode same vm: {:?}", r.map_err(|e| e.to_string()));
+}
+fn jparse(t: &[u8]) -> Option<JNode> {
+    JParser { t, i: 0 }.value()
+}
+
+/// all function nodes of the module, preorder
+fn jfns<'a>(f: &'a JNode, out: &mut Vec<&'a JNode>) {
+    out.push(f);
+    if let Some(JKind::Arr(inner)) = f.get("inner_functions").map(|n| &n.kind) {
+        for g in inner {
+            jfns(g, out);
+        }
     }
+}
+
+/// the string scalar naming a symbol: {"Plain": name} | {"Marked": [id, name]}
+fn jsymbol_name(n: &JNode) -> Option<&JNode> {
+    if let Some(p) = n.get("Plain") {
+        return Some(p);
+    }
+    n.get("Marked").and_then(|m| m.at(1)).filter(|x| matches!(x.kind, JKind::Str))
+}
+
+fn jfirst_reference(n: &JNode) -> Option<&JNode> {
+    match &n.kind {
+        JKind::Obj(fs) => {
+            if fs.len() == 1 && fs[0].0 == "Reference" {
+                return Some(&fs[0].1);
+            }
+            fs.iter().find_map(|(_, v)| jfirst_reference(v))
+        }
+        JKind::Arr(a) => a.iter().find_map(jfirst_reference),
+        _ => None,
+    }
+}
+
+const BIG: u64 = 1_000_000_007;
+
+fn json_corruptions(text: &[u8], rng: &mut Rng) -> Vec<Corrupt> {
+    let mut res = vec![];
+    let root = match jparse(text) {
+        Some(r) => r,
+        None => return res,
+    };
+    let splice = |n: &JNode, new: &str| -> Vec<u8> {
+        let mut b = text[..n.start].to_vec();
+        b.extend_from_slice(new.as_bytes());
+        b.extend_from_slice(&text[n.end..]);
+        b
+    };
+    let mut emit = |class: &str, detail: String, bytes: Vec<u8>| {
+        res.push(Corrupt { class: format!("corrupt:{}", class), detail, bytes });
+    };
+    let function = match root.get("module").and_then(|m| m.get("function")) {
+        Some(f) => f,
+        None => return res,
+    };
+    let mut fns = vec![];
+    jfns(function, &mut fns);
+    // instruction fields: for every (variant, field) that occurs, one occurrence chosen at random
     {
-        use gluon::compiler_pipeline::{Executable, Precompiled};
-        let vm2 = mg::run::new_vm();
-        let mut de = serde_json::Deserializer::from_slice(&buf);
-        let r = futures::executor::block_on(Precompiled(&mut de).run_expr(&mut vm2.module_compiler(&mut vm2.get_database()), &*vm2, "test", "", ()));
+        let mut occ: BTreeMap<(String, String), Vec<&JNode>> = BTreeMap::new();
+        let mut where_: BTreeMap<usize, (usize, usize)> = BTreeMap::new();
+        for (fi, f) in fns.iter().enumerate() {
+            if let Some(JKind::Arr(is)) = f.get("instructions").map(|n| &n.kind) {
+                for (ii, i) in is.iter().enumerate() {
+                    if let JKind::Obj(m) = &i.kind {
+                        if let Some((n, body)) = m.first() {
+                            match &body.kind {
+                                JKind::Obj(fs) => {
+                                    for (k, v) in fs {
+                                        occ.entry((n.clone(), k.clone())).or_default().push(v);
+                                        where_.insert(v.start, (fi, ii));
+                                    }
+                                }
+                                JKind::Other => {
+                                    let t = body.text(text);
+                                    if !t.contains(&b'.') && !t.contains(&b'e') && t != b"null" {
+                                        occ.entry((n.clone(), String::new())).or_default().push(body);
+                                        where_.insert(body.start, (fi, ii));
+                                    }
+                                }
+                                _ => {}
+                            }
+                        }
+                    }
+                }
+            }
+        }
+        for ((variant, field), places) in occ {
+            if variant == "PushInt" || variant == "PushByte" {
+                continue; // any value of these is a legal operand
+            }
+            let node = places[rng.below(places.len() as u64) as usize];
+            let (fi, ii) = where_[&node.start];
+            let fname = if field.is_empty() { variant.clone() } else { format!("{}.{}", variant, field) };
+            emit(&format!("instr-index:{}", fname), format!("function #{} instruction #{}: {} := {}", fi, ii, fname, BIG), splice(node, &BIG.to_string()));
+        }
+    }
+    // a variant name the instruction set does not have / an instruction replaced by a number
+    if let Some(is) = function.get("instructions") {
+        if is.len() > 0 {
+            let ii = rng.below(is.len() as u64) as usize;
+            let node = is.at(ii).unwrap();
+            let old = String::from_utf8_lossy(node.text(text)).into_owned();
+            // the first quoted name in the element is the variant name
+            if let Some(q) = old[1..].find('"').filter(|_| old.starts_with('"') || old.starts_with("{\"")) {
+                let close = if old.starts_with('"') { q + 1 } else { old[2..].find('"').map(|x| x + 2).unwrap_or(q + 1) };
+                let mut new = old.clone();
+                new.insert(close, 'X');
+                emit("variant-name", format!("function #0 instruction #{} renamed: {}", ii, new), splice(node, &new));
+            }
+            emit("instruction-as-number", format!("function #0 instruction #{} := 7", ii), splice(node, "7"));
+        }
+    }
+    // unknown global
+    if let Some(g) = root.get("module").and_then(|m| m.get("module_globals")).and_then(|g| g.at(0)).and_then(jsymbol_name) {
+        emit("global-name", "module_globals[0] := @no.such.module".into(), splice(g, "\"@no.such.module\""));
+    }
+    // module name
+    if let Some(n) = function.get("id").and_then(jsymbol_name) {
+        emit("module-name", "function.id := someone_else".into(), splice(n, "\"someone_else\""));
+    }
+    // a string replaced by a number
+    for (fi, f) in fns.iter().enumerate() {
+        if let Some(s0) = f.get("strings").and_then(|s| s.at(0)) {
+            emit("string-as-number", format!("function #{} strings[0] := 42", fi), splice(s0, "42"));
+            break;
+        }
+    }
+    if let Some(n) = function.get("debug_info").and_then(|d| d.get("source_name")) {
+        emit("string-as-number", "function.debug_info.source_name := 7".into(), splice(n, "7"));
+    }
+    // sizes
+    if let Some(n) = function.get("max_stack_size") {
+        emit("max_stack_size", "function.max_stack_size := 0".into(), splice(n, "0"));
+    }
+    if let Some(n) = function.get("args") {
+        emit("args", "function.args := 3".into(), splice(n, "3"));
+        emit("number-out-of-range", "function.args := -1".into(), splice(n, "-1"));
+        emit("number-out-of-range", "function.args := 4294967296".into(), splice(n, "4294967296"));
+    }
+    // a shared-node reference that was never defined
+    if let Some(r) = root.get("module").and_then(jfirst_reference) {
+        emit("shared-reference", "first {\"Reference\": n} inside module := 987654".into(), splice(r, "987654"));
+    }
+    if let Some(t) = root.get("typ") {
+        emit("shared-reference", "typ := dangling reference".into(), splice(t, "{\"Reference\":987654}"));
+    }
+    // a record field list emptied
+    if let Some(r0) = function.get("records").and_then(|r| r.at(0)) {
+        emit("record-fields", "function.records[0] := []".into(), splice(r0, "[]"));
+    }
+    // a field renamed away (the struct then lacks `instructions`)
+    if function.get("instructions").is_some() {
+        let key = b"\"instructions\":";
+        if let Some(at) = find_from(text, key, function.start) {
+            let mut b = text.to_vec();
+            b[at + 1] = b'j';
+            emit("missing-field", "function.instructions renamed to jnstructions".into(), b);
+        }
+    }
+    res
+}
+
+fn flat<'a>(f: &'a SkFn, out: &mut Vec<&'a SkFn>) {
+    out.push(f);
+    for g in &f.inner {
+        flat(g, out);
+    }
+}
+
+/// Single-field corruptions of a bincode serialisation.  The instruction vectors are located inside the module
+/// bytes (`embed`), mutated as typed values or byte-patched, re-encoded and spliced back.
+fn bincode_corruptions(module: &[u8], sk: &SkFn, fixed: bool, deps: &[String], rng: &mut Rng) -> Vec<Corrupt> {
+    let mut res = vec![];
+    let mut pieces = vec![];
+    if real_skeleton_bytes(sk, fixed, &mut 0, &mut pieces).is_err() {
+        return res;
+    }
+    let pos = match embed(module, &pieces) {
+        Some(p) => p,
+        None => return res,
+    };
+    // piece number of (function, kind)
+    let piece_of = |f: usize, kind: &str| -> usize { pieces.iter().position(|(pf, k, _)| *pf == f && *k == kind).unwrap() };
+    let splice = |at: usize, old_len: usize, new: &[u8]| -> Vec<u8> {
+        let mut b = module[..at].to_vec();
+        b.extend_from_slice(new);
+        b.extend_from_slice(&module[at + old_len..]);
+        b
+    };
+    let mut fns = vec![];
+    flat(sk, &mut fns);
+    // typed mutations: one per (variant, field) that occurs, at a random occurrence
+    use gluon::vm::types::Instruction as I;
+    let mut seen: HashSet<String> = HashSet::new();
+    let mut order: Vec<(usize, usize)> = vec![];
+    for (fi, f) in fns.iter().enumerate() {
+        for ii in 0..f.instrs.len() {
+            order.push((fi, ii));
+        }
+    }
+    for k in (1..order.len()).rev() {
+        let j = rng.below(k as u64 + 1) as usize;
+        order.swap(k, j);
+    }
+    let typed: Vec<Vec<I>> = fns.iter().map(|f| typed_instrs(f).unwrap_or_default()).collect();
+    for (fi, ii) in order {
+        let instrs = &typed[fi];
+        if ii >= instrs.len() {
+            continue;
+        }
+        let big = BIG as u32;
+        let muts: Vec<(&str, I)> = match instrs[ii] {
+            I::PushString(_) => vec![("PushString", I::PushString(big))],
+            I::PushUpVar(_) => vec![("PushUpVar", I::PushUpVar(big))],
+            I::Push(_) => vec![("Push", I::Push(big))],
+            I::Call(_) => vec![("Call", I::Call(big))],
+            I::TailCall(_) => vec![("TailCall", I::TailCall(big))],
+            I::ConstructVariant { tag, args } => vec![("ConstructVariant.args", I::ConstructVariant { tag, args: big }), ("ConstructVariant.tag", I::ConstructVariant { tag: big, args })],
+            I::ConstructPolyVariant { tag, args } => vec![("ConstructPolyVariant.args", I::ConstructPolyVariant { tag, args: big }), ("ConstructPolyVariant.tag", I::ConstructPolyVariant { tag: big, args })],
+            I::NewVariant { tag, args } => vec![("NewVariant.args", I::NewVariant { tag, args: big }), ("NewVariant.tag", I::NewVariant { tag: big, args })],
+            I::NewRecord { record, args } => vec![("NewRecord.args", I::NewRecord { record, args: big }), ("NewRecord.record", I::NewRecord { record: big, args })],
+            I::CloseData { .. } => vec![("CloseData.index", I::CloseData { index: big })],
+            I::ConstructRecord { record, args } => vec![("ConstructRecord.args", I::ConstructRecord { record, args: big }), ("ConstructRecord.record", I::ConstructRecord { record: big, args })],
+            I::ConstructArray(_) => vec![("ConstructArray", I::ConstructArray(big))],
+            I::GetOffset(_) => vec![("GetOffset", I::GetOffset(big))],
+            I::GetField(_) => vec![("GetField", I::GetField(big))],
+            I::TestTag(_) => vec![("TestTag", I::TestTag(big))],
+            I::TestPolyTag(_) => vec![("TestPolyTag", I::TestPolyTag(big))],
+            I::Jump(_) => vec![("Jump", I::Jump(big))],
+            I::CJump(_) => vec![("CJump", I::CJump(big))],
+            I::Pop(_) => vec![("Pop", I::Pop(big))],
+            I::Slide(_) => vec![("Slide", I::Slide(big))],
+            I::MakeClosure { function_index, upvars } => vec![("MakeClosure.function_index", I::MakeClosure { function_index: big, upvars }), ("MakeClosure.upvars", I::MakeClosure { function_index, upvars: big })],
+            I::NewClosure { function_index, upvars } => vec![("NewClosure.function_index", I::NewClosure { function_index: big, upvars }), ("NewClosure.upvars", I::NewClosure { function_index, upvars: big })],
+            I::CloseClosure(_) => vec![("CloseClosure", I::CloseClosure(big))],
+            _ => vec![],
+        };
+        for (name, m) in muts {
+            if !seen.insert(name.to_string()) {
+                continue;
+            }
+            let mut v = instrs.clone();
+            v[ii] = m;
+            let pi = piece_of(fi, "instructions");
+            res.push(Corrupt {
+                class: format!("corrupt:instr-index:{}", name),
+                detail: format!("function #{} instruction #{}: {} := {}", fi, ii, name, BIG),
+                bytes: splice(pos[pi], pieces[pi].2.len(), &benc(&v, fixed)),
+            });
+        }
+    }
+    // wrong variant index: patch the index bytes of one instruction of the top-level function
+    {
+        let instrs = &typed[0];
+        if !instrs.is_empty() {
+            let ii = rng.below(instrs.len() as u64) as usize;
+            let pi = piece_of(0, "instructions");
+            let body: usize = instrs.iter().map(|i| benc(i, fixed).len()).sum();
+            let len_prefix = pieces[pi].2.len() - body;
+            let off = pos[pi] + len_prefix + instrs[..ii].iter().map(|i| benc(i, fixed).len()).sum::<usize>();
+            let mut b = module.to_vec();
+            if fixed {
+                b[off..off + 4].copy_from_slice(&0xfffffff0u32.to_le_bytes());
+            } else {
+                b[off] = 250; // a one-byte varint: variant 250 does not exist
+            }
+            res.push(Corrupt { class: "corrupt:variant-index".into(), detail: format!("function #0 instruction #{}: variant index out of range", ii), bytes: b });
+        }
+    }
+    // sequence length prefix of the top-level instruction vector: claims far more elements than there are bytes
+    {
+        let pi = piece_of(0, "instructions");
+        let old = benc(&(sk.instrs.len() as u64), fixed);
+        let new = benc(&(1u64 << 60), fixed);
+        if module[pos[pi]..].starts_with(&old) {
+            res.push(Corrupt { class: "corrupt:seq-length".into(), detail: "instruction vector length := 2^60".into(), bytes: splice(pos[pi], old.len(), &new) });
+        }
+    }
+    // header: max_stack_size := 0, args := 3
+    {
+        let hi = piece_of(0, "header");
+        let enc2 = |a: u32, m: u32| -> Vec<u8> {
+            let mut o = benc(&a, fixed);
+            o.extend(benc(&m, fixed));
+            o
+        };
+        res.push(Corrupt { class: "corrupt:max_stack_size".into(), detail: "function.max_stack_size := 0".into(), bytes: splice(pos[hi], pieces[hi].2.len(), &enc2(sk.args, 0)) });
+        res.push(Corrupt { class: "corrupt:args".into(), detail: "function.args := 3".into(), bytes: splice(pos[hi], pieces[hi].2.len(), &enc2(3, sk.mss)) });
+    }
+    // names: same-length substitutions keep every length prefix valid
+    for d in deps.iter().take(1) {
+        let needle = format!("@{}", d);
+        if let Some(at) = find_from(module, needle.as_bytes(), 0) {
+            let mut b = module.to_vec();
+            let last = at + needle.len() - 1;
+            b[last] = if b[last] == b'x' { b'y' } else { b'x' };
+            res.push(Corrupt { class: "corrupt:global-name".into(), detail: format!("{} renamed (last byte)", needle), bytes: b });
+        }
+    }
+    if let Some(at) = find_from(module, NAME.as_bytes(), 0) {
+        let mut b = module.to_vec();
+        b[at] = b'x';
+        res.push(Corrupt { class: "corrupt:module-name".into(), detail: "first occurrence of the module name renamed".into(), bytes: b });
+    }
+    // a string constant made invalid UTF-8
+    for (fi, f) in fns.iter().enumerate() {
+        if f.strings.iter().any(|s| !s.is_empty()) {
+            let pi = piece_of(fi, "strings");
+            let first = f.strings.iter().find(|s| !s.is_empty()).unwrap();
+            if let Some(at) = find_from(module, first.as_bytes(), pos[pi]) {
+                let mut b = module.to_vec();
+                b[at] = 0xff;
+                res.push(Corrupt { class: "corrupt:string-bytes".into(), detail: format!("function #{}: first byte of a string constant := 0xff", fi), bytes: b });
+                break;
+            }
+        }
+    }
+    res
+}
+
+// ------------------------------------------------------------------------------------------------
+// child process: `c12 child` reads jobs `<id> <payload|same> <api> <fmt> <bare|deps> <dep,dep,..|-> <prelude 0|1> <hex>`,
+// answers `<id> READY` once its VM exists and the dependencies are imported (the watchdog starts then), and then
+// `<id> <canonical outcome>` or `<id> PANIC <message>` (and exits: locks may be poisoned).
+// `payload`: the hex is a serialised module; `same`: the hex is a source text which the child compiles with
+// `compile_to_bytecode` and loads into the very same VM.
+
+fn child_main() {
+    // panics are reported through the protocol, not on stderr
+    std::panic::set_hook(Box::new(|_| {}));
+    let stdin = std::io::stdin();
+    let mut vms: BTreeMap<bool, RootedThread> = BTreeMap::new();
+    let mut loaded: HashSet<(bool, String)> = HashSet::new();
+    for line in stdin.lock().lines() {
+        let line = match line {
+            Ok(l) => l,
+            Err(_) => break,
+        };
+        let p: Vec<&str> = line.split(' ').collect();
+        if p.len() != 8 {
+            continue;
+        }
+        let (id, same, api, fmt, bare, deps, prelude, payload) = (p[0], p[1] == "same", Api::parse(p[2]), Fmt::parse(p[3]), p[4] == "bare", p[5], p[6] == "1", unhex(p[7]));
+        let vm = if bare {
+            new_vm(prelude)
+        } else {
+            let vm = vms.entry(prelude).or_insert_with(|| new_vm(prelude)).clone();
+            let ds: Vec<String> = if deps == "-" { vec![] } else { deps.split(',').map(|s| s.to_string()).collect() };
+            let missing: Vec<String> = ds.into_iter().filter(|d| loaded.insert((prelude, d.clone()))).collect();
+            preload(&vm, &missing);
+            vm
+        };
+        let out = std::io::stdout();
+        let mut out = out.lock();
+        let payload = if same {
+            match compile(&vm, &String::from_utf8_lossy(&payload), fmt) {
+                Ok(b) => b,
+                Err(CompileError::FrontEnd(m)) | Err(CompileError::Ser(m)) => {
+                    writeln!(out, "{} READY", id).ok();
+                    writeln!(out, "{} COMPILE-ERROR {}", id, m.replace('\n', " | ")).ok();
+                    out.flush().ok();
+                    continue;
+                }
+            }
+        } else {
+            payload
+        };
+        writeln!(out, "{} READY", id).ok();
+        out.flush().ok();
+        let r = load(&vm, fmt, api, &payload, &|t, v| mg::value::canon(t, v));
         match r {
-            Ok(v) => println!("run_expr fresh: {}", mg::value::canon(&vm2, v.value.get_variant())),
-            Err(e) => println!("run_expr fresh err: {}", e),
+            Loaded::Out(o) => {
+                writeln!(out, "{} {}", id, o.canonical()).ok();
+                out.flush().ok();
+            }
+            Loaded::Panic(m) => {
+                writeln!(out, "{} PANIC {}", id, m.replace('\n', " | ")).ok();
+                out.flush().ok();
+                std::mem::forget(vm);
+                std::process::exit(3);
+            }
+        }
+    }
+}
+
+struct Child {
+    proc: std::process::Child,
+    stdin: std::process::ChildStdin,
+    rx: mpsc::Receiver<String>,
+}
+
+fn spawn_child() -> Child {
+    // address-space cap: a corrupted count must not be able to eat the machine's memory (an allocation failure
+    // aborts the child, which is then reported as a crash of that input)
+    let exe = std::env::current_exe().unwrap();
+    let mut proc = std::process::Command::new("sh")
+        .arg("-c")
+        .arg("ulimit -v 2500000; exec \"$0\" child")
+        .arg(&exe)
+        .stdin(std::process::Stdio::piped())
+        .stdout(std::process::Stdio::piped())
+        .stderr(std::process::Stdio::null())
+        .spawn()
+        .expect("spawn child");
+    let stdin = proc.stdin.take().unwrap();
+    let stdout = proc.stdout.take().unwrap();
+    let (tx, rx) = mpsc::channel();
+    std::thread::spawn(move || {
+        for l in std::io::BufReader::new(stdout).lines() {
+            match l {
+                Ok(l) => {
+                    if tx.send(l).is_err() {
+                        break;
+                    }
+                }
+                Err(_) => break,
+            }
+        }
+    });
+    Child { proc, stdin, rx }
+}
+
+#[derive(Clone, Debug)]
+struct Job {
+    prog: usize,
+    /// `bytes` is a source text to be compiled and loaded in one and the same (child) VM
+    same: bool,
+    /// for unmodified modules: the canonical outcome of the source
+    expect: Option<String>,
+    fmt: Fmt,
+    api: Api,
+    bare: bool,
+    prelude: bool,
+    deps: Vec<String>,
+    class: String,
+    detail: String,
+    bytes: Vec<u8>,
+}
+
+#[derive(Clone, Debug)]
+enum JobResult {
+    /// the child answered with a canonical outcome
+    Outcome(String),
+    Panic(String),
+    /// the child died (signal / abort / exit without answer)
+    Died(String),
+    Hang,
+    /// not run: the same entry point and format already hung repeatedly in this run
+    Skipped,
+}
+
+fn run_job(child: &mut Option<Child>, job: &Job, id: u64, watchdog: Duration) -> JobResult {
+    if child.is_none() {
+        *child = Some(spawn_child());
+    }
+    let c = child.as_mut().unwrap();
+    let deps = if job.deps.is_empty() { "-".to_string() } else { job.deps.join(",") };
+    let line = format!("{} {} {} {} {} {} {} {}\n", id, if job.same { "same" } else { "payload" }, job.api.name(), job.fmt.name(), if job.bare { "bare" } else { "deps" }, deps, if job.prelude { 1 } else { 0 }, hex(&job.bytes));
+    if c.stdin.write_all(line.as_bytes()).and_then(|_| c.stdin.flush()).is_err() {
+        let st = c.proc.wait().map(|s| s.to_string()).unwrap_or_default();
+        *child = None;
+        return JobResult::Died(format!("child not accepting input ({})", st));
+    }
+    // creating the VM / importing dependencies / compiling is not what the watchdog is about
+    let mut deadline = Instant::now() + Duration::from_secs(300);
+    loop {
+        let left = deadline.saturating_duration_since(Instant::now());
+        match c.rx.recv_timeout(left) {
+            Ok(l) => {
+                let (rid, rest) = l.split_once(' ').unwrap_or((&l, ""));
+                if rid != id.to_string() {
+                    continue;
+                }
+                if rest == "READY" {
+                    deadline = Instant::now() + watchdog;
+                    continue;
+                }
+                if let Some(m) = rest.strip_prefix("PANIC ") {
+                    let _ = c.proc.wait();
+                    *child = None;
+                    return JobResult::Panic(m.to_string());
+                }
+                return JobResult::Outcome(rest.to_string());
+            }
+            Err(mpsc::RecvTimeoutError::Timeout) => {
+                let _ = c.proc.kill();
+                let _ = c.proc.wait();
+                *child = None;
+                return JobResult::Hang;
+            }
+            Err(mpsc::RecvTimeoutError::Disconnected) => {
+                let st = c.proc.wait().map(|s| s.to_string()).unwrap_or_default();
+                *child = None;
+                return JobResult::Died(st);
+            }
+        }
+    }
+}
+
+// ------------------------------------------------------------------------------------------------
+
+struct Finding {
+    key: String,
+    what: String,
+    case: serde_json::Value,
+    expected: String,
+    observed: String,
+    count: u64,
+}
+
+#[derive(Default)]
+struct Findings(BTreeMap<String, Finding>);
+impl Findings {
+    fn add(&mut self, key: &str, what: String, case: serde_json::Value, expected: &str, observed: &str) {
+        let e = self.0.entry(key.to_string()).or_insert(Finding { key: key.to_string(), what, case, expected: expected.to_string(), observed: observed.to_string(), count: 0 });
+        e.count += 1;
+    }
+}
+
+struct Case {
+    family: String,
+    source: String,
+    prelude: bool,
+    program: Option<Program>,
+}
+
+fn deps_of(tree: &serde_json::Value) -> Vec<String> {
+    let mut v = vec![];
+    if let Some(gs) = tree["module"]["module_globals"].as_array() {
+        for g in gs {
+            let name = g.get("Plain").and_then(|x| x.as_str()).or_else(|| g.get("Marked").and_then(|m| m.get(1)).and_then(|x| x.as_str()));
+            if let Some(n) = name {
+                let n = n.trim_start_matches('@');
+                if !n.is_empty() && n.chars().all(|c| c.is_alphanumeric() || c == '.' || c == '_') {
+                    v.push(n.to_string());
+                }
+            }
+        }
+    }
+    v
+}
+
+fn is_load_error(o: &Outcome) -> bool {
+    matches!(o, Outcome::Err(ErrKind::Other(_), _))
+}
+
+fn main() {
+    if std::env::args().nth(1).as_deref() == Some("child") {
+        child_main();
+        return;
+    }
+    let args = Args::parse();
+    if let Some(path) = args.replay.clone() {
+        replay(&path);
+        return;
+    }
+    if let Some(src) = args.extra.get("probe") {
+        probe(src);
+        return;
+    }
+    let t_start = Instant::now();
+    let thorough = args.thorough();
+    let n_gen: usize = args.extra.get("programs").and_then(|s| s.parse().ok()).unwrap_or(if thorough { 10000 } else { 500 });
+    // robustness is run for every `robust_every`-th program
+    let robust_every: usize = args.extra.get("robust_every").and_then(|s| s.parse().ok()).unwrap_or(10);
+    let max_operand: usize = args.extra.get("max_operand").and_then(|s| s.parse().ok()).unwrap_or(if thorough { 1000 } else { 4 });
+    let workers: usize = args.extra.get("workers").and_then(|s| s.parse().ok()).unwrap_or(6);
+    let watchdog = Duration::from_secs(args.extra.get("watchdog").and_then(|s| s.parse().ok()).unwrap_or(if thorough { 15 } else { 4 }));
+
+    // ---- cases: corpus first, then generated programs in both styles ----
+    let mut cases: Vec<Case> = vec![];
+    let verif = std::env::var("VERIF_ROOT").unwrap_or_else(|_| "/verif".into());
+    let repo = std::env::var("GLUON_REPO").unwrap_or_else(|_| "/repo".into());
+    if let Ok(rd) = std::fs::read_dir(format!("{}/corpus/C12", verif)) {
+        let mut files: Vec<_> = rd.filter_map(|e| e.ok()).map(|e| e.path()).filter(|p| p.extension().map(|e| e == "glu").unwrap_or(false)).collect();
+        files.sort();
+        for f in files {
+            let src = std::fs::read_to_string(&f).unwrap_or_default();
+            let prelude = !src.contains("// c12: no-prelude");
+            cases.push(Case { family: format!("corpus:{}", f.file_name().unwrap().to_string_lossy()), source: src, prelude, program: None });
+        }
+    }
+    let std_files: &[&str] = if thorough {
+        &["map", "list", "option", "result", "string", "char", "int", "float", "bool", "unit", "array", "functor", "monoid", "foldable", "state", "writer", "lazy", "stream", "parser", "json/de"]
+    } else {
+        &["map", "list", "option", "parser"]
+    };
+    if args.extra.get("std").map(|s| s != "0").unwrap_or(true) {
+        for m in std_files {
+            if let Ok(src) = std::fs::read_to_string(format!("{}/std/{}.glu", repo, m)) {
+                cases.push(Case { family: format!("std:{}", m), source: src, prelude: true, program: None });
+            }
+        }
+    }
+    let mut rng = Rng::new(args.seed);
+    let mut cfg = GenConfig::default();
+    cfg.features.floats = true;
+    cfg.features.multi_record_alts = false; // known C01 finding (front-end panic), not about serialisation
+    cfg.features.update_reorder = false;
+    let styles = Style::all();
+    for i in 0..n_gen {
+        let mut c = cfg.clone();
+        // vary the size; every 4th program is a big one
+        c.max_size = if i % 4 == 3 { 120 } else { 30 + (i as u32 % 5) * 15 };
+        c.max_depth = if i % 4 == 3 { 7 } else { 5 };
+        let p = mg::generate::gen_program(&mut rng, &c);
+        let st = &styles[i % styles.len()];
+        let src = mg::print::to_gluon(&p, st);
+        cases.push(Case { family: format!("gen:{}", st.name()), source: src, prelude: false, program: Some(p) });
+    }
+
+    let mut model_in = args.file("model_in.txt");
+    let mut impl_out = args.file("impl_out.txt");
+    let mut cases_txt = args.file("cases.txt");
+    let mut hist = Hist::default();
+    let mut findings = Findings::default();
+    let mut distinct = HashSet::new();
+    let mut nontrivial = 0u64;
+    let mut evaluations = 0u64;
+    let mut loads_compared = 0u64;
+    let mut samples: Vec<serde_json::Value> = vec![];
+    let mut jobs: Vec<Job> = vec![];
+    let mut job_sources: Vec<String> = vec![]; // by case index
+
+    let mut vm_same: BTreeMap<bool, (RootedThread, u32)> = BTreeMap::new();
+    let mut vm_other: BTreeMap<bool, (RootedThread, u32, HashSet<String>)> = BTreeMap::new();
+
+    for (ci, case) in cases.iter().enumerate() {
+        job_sources.push(case.source.clone());
+        let prelude = case.prelude;
+        // the VM that runs and compiles the source
+        let renew = vm_same.get(&prelude).map(|(_, n)| *n >= 400).unwrap_or(true);
+        if renew {
+            vm_same.insert(prelude, (new_vm(prelude), 0));
+        }
+        let vm = vm_same.get(&prelude).unwrap().0.clone();
+        vm_same.get_mut(&prelude).unwrap().1 += 1;
+        let render_typed = |t: &gluon::Thread, v: gluon::vm::Variants<'_>| -> String {
+            match &case.program {
+                Some(p) => mg::value::canon_typed(t, v, &p.ty, &p.types),
+                None => mg::value::canon(t, v),
+            }
+        };
+        // (1) from source
+        // the value is rendered twice: with the program's static type (record field names) for the in-process
+        // comparisons, and untyped for the comparisons with what a child process reports
+        let both = mg::run::run_with(&vm, &case.source, |t, v| format!("{}\u{1}{}", render_typed(t, v.clone()), mg::value::canon(t, v)));
+        let (src_out, expected_untyped) = match both {
+            Outcome::Val(s, l) => {
+                let (a, b) = s.split_once('\u{1}').map(|(a, b)| (a.to_string(), b.to_string())).unwrap_or((s.clone(), s.clone()));
+                (Outcome::Val(a, l.clone()), Outcome::Val(b, l).canonical())
+            }
+            e => {
+                let c = e.canonical();
+                (e, c)
+            }
+        };
+        evaluations += 1;
+        hist.add(&format!("family:{}", case.family.split(':').next().unwrap()));
+        hist.add(&format!("source-outcome:{}", src_out.class()));
+        if matches!(src_out, Outcome::Err(ErrKind::Parse(_), _) | Outcome::Err(ErrKind::Typecheck(_), _) | Outcome::Err(ErrKind::HostPanic(_), _)) {
+            hist.add("skipped:front-end");
+            if let Outcome::Err(ErrKind::HostPanic(_), _) = src_out {
+                std::mem::forget(vm_same.remove(&prelude));
+            }
+            continue;
+        }
+        let expected = src_out.canonical();
+        // (2) compile to every format
+        let mut blobs: Vec<(Fmt, Vec<u8>)> = vec![];
+        let mut skip = false;
+        for fmt in Fmt::all() {
+            mg::run::log_clear();
+            match compile(&vm, &case.source, fmt) {
+                Ok(b) => {
+                    let l = mg::run::log_take();
+                    if !l.is_empty() {
+                        findings.add("compile-has-effects", format!("compile_to_bytecode ran host effects {:?}", l), serde_json::json!({"check": "roundtrip", "source": case.source, "format": fmt.name(), "prelude": prelude}), "(log)", &format!("{:?}", l));
+                    }
+                    hist.addn(&format!("bytes:{}", fmt.name()), b.len() as u64);
+                    blobs.push((fmt, b));
+                }
+                Err(CompileError::FrontEnd(_)) => {
+                    hist.add("skipped:compile-front-end");
+                    skip = true;
+                    break;
+                }
+                Err(CompileError::Ser(m)) => {
+                    hist.add(&format!("serialise-error:{}", fmt.name()));
+                    findings.add(
+                        &format!("serialise-fails:{}", fmt.name()),
+                        format!("compile_to_bytecode cannot serialise an accepted program to {}: {}", fmt.name(), m),
+                        serde_json::json!({"check": "roundtrip", "source": case.source, "format": fmt.name(), "prelude": prelude}),
+                        "Ok(bytes)",
+                        &m,
+                    );
+                }
+            }
+        }
+        if skip || blobs.is_empty() {
+            continue;
+        }
+        let json_tree: Option<serde_json::Value> = blobs.iter().find(|(f, _)| *f == Fmt::Json).and_then(|(_, b)| serde_json::from_slice(b).ok());
+        let deps = json_tree.as_ref().map(deps_of).unwrap_or_default();
+        hist.add(&format!("deps:{}", deps.len().min(5)));
+        // the other VM: never saw the source; the modules the bytecode refers to are imported first
+        let renew = vm_other.get(&prelude).map(|(_, n, _)| *n >= 400).unwrap_or(true);
+        if renew {
+            vm_other.insert(prelude, (new_vm(prelude), 0, HashSet::new()));
+        }
+        {
+            let e = vm_other.get_mut(&prelude).unwrap();
+            e.1 += 1;
+            let missing: Vec<String> = deps.iter().filter(|d| e.2.insert((*d).clone())).cloned().collect();
+            preload(&e.0, &missing);
+        }
+        let other = vm_other.get(&prelude).unwrap().0.clone();
+        // a brand-new VM per program for a sample of the programs
+        let brand_new = if true {
+            let v = new_vm(prelude);
+            preload(&v, &deps);
+            Some(v)
+        } else {
+            None
+        };
+        let mut poisoned = false;
+        for (fmt, bytes) in &blobs {
+            // `load_bytecode` is only ever called in child processes (below): on the unchanged tree it can block
+            // for ever on the compiler database lock it already holds
+            for api in [Api::Run] {
+                let mut targets: Vec<(&str, &RootedThread)> = vec![("same", &vm), ("fresh", &other)];
+                if let Some(b) = &brand_new {
+                    targets.push(("brand-new", b));
+                }
+                for (vmname, target) in targets {
+                    if poisoned {
+                        continue;
+                    }
+                    let got = load(target, *fmt, api, bytes, &|t, v| render_typed(t, v));
+                    loads_compared += 1;
+                    let got_s = match &got {
+                        Loaded::Out(o) => o.canonical(),
+                        Loaded::Panic(m) => format!("PANIC {}", m),
+                    };
+                    hist.add(&format!("load:{}:{}:{}", fmt.name(), api.name(), if got_s == expected { "same" } else { "differs" }));
+                    if got_s != expected {
+                        let case_json = serde_json::json!({"check": "roundtrip", "source": case.source, "format": fmt.name(), "api": api.name(), "vm": vmname, "prelude": prelude});
+                        let rejects_own = matches!(&got, Loaded::Out(o) if is_load_error(o)) && !is_load_error(&src_out);
+                        if rejects_own {
+                            // the loader refuses what the compiler just produced
+                            let short = if got_s.contains("missing field") { "missing-field" } else { "error" };
+                            findings.add(
+                                &format!("load-rejects-own-output:{}:{}:{}", api.name(), fmt.name(), short),
+                                format!("{} refuses the unmodified {} output of compile_to_bytecode: {}", api.name(), fmt.name(), got_s.chars().take(300).collect::<String>()),
+                                case_json,
+                                &expected,
+                                &got_s,
+                            );
+                        } else if let Loaded::Panic(m) = &got {
+                            findings.add(
+                                &format!("load-crash:unmodified:{}", fmt.name()),
+                                format!("{} panics on the unmodified {} serialisation: {}", api.name(), fmt.name(), m),
+                                case_json,
+                                &expected,
+                                &got_s,
+                            );
+                        } else {
+                            findings.add(
+                                &format!("precompiled-differs:{:016x}", fnv(case.source.as_bytes())),
+                                format!("a module loaded from its {} serialisation with {} into the {} vm evaluates differently from its source", fmt.name(), api.name(), vmname),
+                                case_json,
+                                &expected,
+                                &got_s,
+                            );
+                        }
+                    }
+                    if let Loaded::Panic(_) = got {
+                        poisoned = true;
+                    }
+                }
+            }
+        }
+        if poisoned {
+            // these VMs may hold poisoned locks: retire them without running their destructors
+            std::mem::forget(vm_same.remove(&prelude));
+            std::mem::forget(vm_other.remove(&prelude));
+            std::mem::forget(brand_new);
+        } else {
+            drop(brand_new);
+        }
+        // (2b) `load_bytecode` of the unmodified module, in a child: into a VM that never saw the source, and —
+        // compiled there again — into the very VM that compiled it
+        for (fmt, bytes) in &blobs {
+            jobs.push(Job { prog: ci, same: false, expect: Some(expected_untyped.clone()), fmt: *fmt, api: Api::Load, bare: false, prelude, deps: deps.clone(), class: "unmodified".into(), detail: "unmodified module, fresh VM with the dependencies imported".into(), bytes: bytes.clone() });
+            jobs.push(Job { prog: ci, same: true, expect: Some(expected_untyped.clone()), fmt: *fmt, api: Api::Load, bare: false, prelude, deps: deps.clone(), class: "unmodified".into(), detail: "compiled and loaded in the same VM".into(), bytes: case.source.as_bytes().to_vec() });
+        }
+        // (3) skeleton tie
+        let tree = match &json_tree {
+            Some(t) => t,
+            None => continue,
+        };
+        let mut tie = |model_line: &str, impl_line: &str| {
+            writeln!(model_in, "{}", model_line).unwrap();
+            writeln!(impl_out, "{}", impl_line).unwrap();
+            writeln!(cases_txt, "{}", case.source.replace('\n', "\\n")).unwrap();
+        };
+        let sk = match sk_of_json(&tree["module"]["function"]) {
+            Ok(sk) => sk,
+            Err(m) => {
+                tie("fn 0 0 0 0 0", &format!("unmodelled {}", m));
+                continue;
+            }
+        };
+        let mut line = String::new();
+        if let Err(m) = sk_model(&sk, &mut line) {
+            tie("fn 0 0 0 0 0", &format!("unmodelled {}", m));
+            continue;
+        }
+        let mut impl_line = String::from("ok");
+        let mut embedded = true;
+        for (fixed, tag, fmt) in [(true, "F", Fmt::BinFix), (false, "V", Fmt::BinVar)] {
+            let mut pieces = vec![];
+            match real_skeleton_bytes(&sk, fixed, &mut 0, &mut pieces) {
+                Ok(b) => {
+                    impl_line.push_str(&format!(" {}={}", tag, hex(&b)));
+                    if let Some((_, module)) = blobs.iter().find(|(f, _)| *f == fmt) {
+                        if embed(module, &pieces).is_none() {
+                            embedded = false;
+                        }
+                    }
+                }
+                Err(m) => impl_line = format!("unmodelled {}", m),
+            }
+        }
+        if !embedded {
+            impl_line = "not-embedded: the modelled pieces do not occur in order in the real bincode serialisation".into();
+        }
+        tie(&line, &impl_line);
+        {
+            let mut fns = vec![];
+            flat(&sk, &mut fns);
+            let mut variants = HashSet::new();
+            let mut ni = 0u64;
+            for f in &fns {
+                ni += f.instrs.len() as u64;
+                for i in &f.instrs {
+                    variants.insert(match i {
+                        serde_json::Value::String(s) => s.clone(),
+                        serde_json::Value::Object(m) => m.keys().next().cloned().unwrap_or_default(),
+                        _ => String::new(),
+                    });
+                }
+            }
+            hist.addn("skeleton:functions", fns.len() as u64);
+            hist.addn("skeleton:instructions", ni);
+            for v in variants {
+                hist.add(&format!("variant:{}", v));
+            }
+            if ni > 4 && distinct.insert(fnv(line.as_bytes())) {
+                nontrivial += 1;
+            }
+            if samples.len() < 4 && (ci % 97 == 5 || samples.is_empty()) {
+                samples.push(serde_json::json!({"source": case.source.chars().take(1500).collect::<String>(), "outcome": expected.chars().take(300).collect::<String>(), "skeleton": line.chars().take(400).collect::<String>()}));
+            }
+        }
+        // (4) robustness jobs
+        if ci % robust_every == 0 || (case.program.is_none() && case.family.starts_with("corpus")) {
+            let mut jrng = Rng::new(args.seed ^ fnv(case.source.as_bytes()));
+            for (fmt, bytes) in &blobs {
+                let mut cs = truncations(bytes);
+                match fmt {
+                    Fmt::Json => cs.extend(json_corruptions(bytes, &mut jrng)),
+                    Fmt::BinFix => cs.extend(bincode_corruptions(bytes, &sk, true, &deps, &mut jrng)),
+                    Fmt::BinVar => cs.extend(bincode_corruptions(bytes, &sk, false, &deps, &mut jrng)),
+                }
+                // operand corruptions nearly always end the child (no bytecode verifier): the quick tier takes a
+                // random handful per program and format, the thorough tier all of them
+                let mut operand: Vec<usize> = (0..cs.len()).filter(|k| cs[*k].class.starts_with("corrupt:instr-index")).collect();
+                let mut drop_set: HashSet<usize> = HashSet::new();
+                while operand.len() > max_operand {
+                    let k = jrng.below(operand.len() as u64) as usize;
+                    drop_set.insert(operand.swap_remove(k));
+                }
+                for (k, c) in cs.into_iter().enumerate() {
+                    if drop_set.contains(&k) {
+                        continue;
+                    }
+                    for api in [Api::Run, Api::Load] {
+                        jobs.push(Job { prog: ci, same: false, expect: None, fmt: *fmt, api, bare: false, prelude, deps: deps.clone(), class: c.class.clone(), detail: c.detail.clone(), bytes: c.bytes.clone() });
+                    }
+                }
+                // the unmodified module in a VM that defines nothing it refers to
+                if !deps.is_empty() {
+                    for api in [Api::Run, Api::Load] {
+                        jobs.push(Job { prog: ci, same: false, expect: None, fmt: *fmt, api, bare: true, prelude, deps: vec![], class: "missing-global".into(), detail: format!("unmodified module loaded into a VM that has not imported {:?}", deps), bytes: bytes.clone() });
+                    }
+                }
+            }
+        }
+    }
+    model_in.flush().unwrap();
+    impl_out.flush().unwrap();
+    cases_txt.flush().unwrap();
+    let t_inproc = t_start.elapsed();
+    eprintln!("c12: {} programs run, compiled and re-loaded in process in {:?}; {} child jobs", evaluations, t_inproc, jobs.len());
+    drop(vm_same);
+    drop(vm_other);
+
+    // ---- (4) run the robustness jobs in child processes ----
+    let n_jobs = jobs.len();
+    let queue = Arc::new(Mutex::new((0usize, jobs)));
+    let results: Arc<Mutex<Vec<(usize, JobResult)>>> = Arc::new(Mutex::new(Vec::new()));
+    // hangs seen so far per (entry point, format): after 2 the remaining jobs of that kind are skipped (each costs a
+    // full watchdog period; they are counted in the histogram as skipped)
+    let hangs: Arc<Mutex<BTreeMap<String, u32>>> = Arc::new(Mutex::new(BTreeMap::new()));
+    let mut handles = vec![];
+    for w in 0..workers {
+        let queue = queue.clone();
+        let results = results.clone();
+        let hangs = hangs.clone();
+        handles.push(std::thread::spawn(move || {
+            let mut child: Option<Child> = None;
+            loop {
+                let (idx, job) = {
+                    let mut q = queue.lock().unwrap();
+                    if q.0 >= q.1.len() {
+                        break;
+                    }
+                    let i = q.0;
+                    q.0 += 1;
+                    (i, q.1[i].clone())
+                };
+                // `load_bytecode` blocks for one and the same reason whatever the input; other hangs are counted
+                // per corruption class
+                let hk = if job.api == Api::Load { format!("{}:{}", job.api.name(), job.fmt.name()) } else { format!("{}:{}:{}", job.api.name(), job.fmt.name(), job.class) };
+                let r = if hangs.lock().unwrap().get(&hk).copied().unwrap_or(0) >= 2 {
+                    JobResult::Skipped
+                } else {
+                    run_job(&mut child, &job, (w as u64) << 32 | idx as u64, watchdog)
+                };
+                if let JobResult::Hang = r {
+                    *hangs.lock().unwrap().entry(hk).or_insert(0) += 1;
+                }
+                results.lock().unwrap().push((idx, r));
+            }
+            if let Some(mut c) = child {
+                drop(c.stdin);
+                let _ = c.proc.kill();
+                let _ = c.proc.wait();
+            }
+        }));
+    }
+    for h in handles {
+        let _ = h.join();
+    }
+    let jobs = std::mem::take(&mut queue.lock().unwrap().1);
+    let mut results = std::mem::take(&mut *results.lock().unwrap());
+    results.sort_by_key(|r| r.0);
+    let mut robust_hist: BTreeMap<String, u64> = BTreeMap::new();
+    let mut robust_samples: BTreeMap<String, String> = BTreeMap::new();
+    for (idx, r) in results {
+        let job = &jobs[idx];
+        let (bad, kind, observed) = match &r {
+            JobResult::Outcome(o) => {
+                if o.contains("hostpanic") {
+                    (true, "panic", o.clone())
+                } else if o.starts_with("COMPILE-ERROR") {
+                    (false, "compile-error", o.clone())
+                } else {
+                    (false, if o.starts_with("(val") { "value" } else { "error" }, o.clone())
+                }
+            }
+            JobResult::Panic(m) => (true, "panic", format!("PANIC {}", m)),
+            JobResult::Died(s) => (true, "died", format!("child process died: {}", s)),
+            JobResult::Hang => (true, "hang", format!("no answer within {:?} (killed)", watchdog)),
+            JobResult::Skipped => (false, "skipped-after-repeated-hangs", String::new()),
+        };
+        let cls: String = job.class.split(':').take(2).collect::<Vec<_>>().join(":");
+        let hk = format!("{}:{}:{}:{}", cls, job.api.name(), job.fmt.name(), kind);
+        robust_samples.entry(hk.clone()).or_insert_with(|| format!("{} => {}", job.detail, observed.chars().take(240).collect::<String>()));
+        *robust_hist.entry(hk).or_insert(0) += 1;
+        let case_json = serde_json::json!({"check": "robust", "source": job_sources[job.prog], "format": job.fmt.name(), "api": job.api.name(), "bare": job.bare, "same": job.same,
+                                           "prelude": job.prelude, "deps": job.deps, "class": job.class, "detail": job.detail, "payload_hex": hex(&job.bytes)});
+        if let Some(expect) = &job.expect {
+            // the unmodified module through `load_bytecode`: the property itself
+            if kind == "skipped-after-repeated-hangs" || kind == "compile-error" {
+                continue;
+            }
+            loads_compared += 1;
+            if &observed == expect {
+                continue;
+            }
+            let was_error = expect.starts_with("(err other");
+            if kind == "hang" {
+                findings.add(
+                    &format!("load-hangs-on-own-output:{}:{}", job.api.name(), job.fmt.name()),
+                    format!("{} of the unmodified {} output of compile_to_bytecode never returns ({})", job.api.name(), job.fmt.name(), job.detail),
+                    case_json, expect, &observed);
+            } else if bad {
+                findings.add(
+                    &format!("load-crash:unmodified:{}", job.fmt.name()),
+                    format!("{} of the unmodified {} output of compile_to_bytecode ends in a {}: {}", job.api.name(), job.fmt.name(), kind, observed.chars().take(300).collect::<String>()),
+                    case_json, expect, &observed);
+            } else if observed.starts_with("(err other") && !was_error {
+                let short = if observed.contains("missing field") { "missing-field" } else { "error" };
+                findings.add(
+                    &format!("load-rejects-own-output:{}:{}:{}", job.api.name(), job.fmt.name(), short),
+                    format!("{} refuses the unmodified {} output of compile_to_bytecode ({}): {}", job.api.name(), job.fmt.name(), job.detail, observed.chars().take(300).collect::<String>()),
+                    case_json, expect, &observed);
+            } else {
+                findings.add(
+                    &format!("precompiled-differs:{:016x}", fnv(job_sources[job.prog].as_bytes())),
+                    format!("a module loaded from its {} serialisation with {} ({}) evaluates differently from its source", job.fmt.name(), job.api.name(), job.detail),
+                    case_json, expect, &observed);
+            }
+            continue;
+        }
+        if bad {
+            let key = format!("load-crash:{}", job.class);
+            findings.add(
+                &key,
+                format!("loading a {} module ({}) with {} ends in a {} instead of an error: {}", job.fmt.name(), job.class, job.api.name(), kind, observed.chars().take(300).collect::<String>()),
+                case_json,
+                "Err(..) or a clean runtime error",
+                &observed,
+            );
+        }
+    }
+    for (k, v) in &robust_hist {
+        hist.addn(&format!("robust:{}", k), *v);
+    }
+
+    eprintln!("c12: child jobs done after {:?}", t_start.elapsed());
+    let mut f = args.file("findings.jsonl");
+    for fd in findings.0.values() {
+        writeln!(f, "{}", serde_json::json!({"key": fd.key, "what": fd.what, "case": fd.case, "expected": fd.expected, "observed": fd.observed, "count": fd.count})).unwrap();
+    }
+    f.flush().unwrap();
+    gvh::out::write_json(
+        &args.out.join("stats.json"),
+        &serde_json::json!({
+            "evaluations": evaluations + loads_compared + n_jobs as u64,
+            "programs": evaluations,
+            "loads_compared": loads_compared,
+            "robustness_loads": n_jobs,
+            "distinct_nontrivial": nontrivial,
+            "rule": "programs whose serialised skeleton has more than 4 instructions, distinct by skeleton (args, max_stack_size, instruction list, inner functions, strings)",
+            "samples": samples,
+            "robust_samples": robust_samples,
+            "hist": hist.to_json(),
+        }),
+    );
+}
+
+/// `c12 probe=<source>`: show what the harness sees for one program (debugging aid).
+fn probe(src: &str) {
+    let vm = new_vm(false);
+    println!("source: {}", mg::run::run(&vm, src).canonical());
+    for fmt in Fmt::all() {
+        match compile(&vm, src, fmt) {
+            Ok(b) => {
+                println!("{}: {} bytes", fmt.name(), b.len());
+                if fmt == Fmt::Json {
+                    println!("{}", String::from_utf8_lossy(&b));
+                }
+                for api in [Api::Load, Api::Run] {
+                    let t0 = Instant::now();
+                    let fresh = new_vm(false);
+                    let t1 = t0.elapsed();
+                    if let Ok(tree) = serde_json::from_slice::<serde_json::Value>(&compile(&vm, src, Fmt::Json).unwrap_or_default()) {
+                        preload(&fresh, &deps_of(&tree));
+                    }
+                    for (n, t) in [("same", &vm), ("fresh", &fresh)] {
+                        match load(t, fmt, api, &b, &|t, v| mg::value::canon(t, v)) {
+                            Loaded::Out(o) => println!("  {} {} -> {}", api.name(), n, o.canonical()),
+                            Loaded::Panic(m) => println!("  {} {} -> PANIC {}", api.name(), n, m),
+                        }
+                    }
+                    println!("  (new vm: {:?})", t1);
+                }
+            }
+            Err(CompileError::FrontEnd(m)) => println!("{}: front end: {}", fmt.name(), m),
+            Err(CompileError::Ser(m)) => println!("{}: serialiser: {}", fmt.name(), m),
+        }
+    }
+}
+
+fn replay(path: &str) {
+    let v: serde_json::Value = serde_json::from_str(&std::fs::read_to_string(path).expect("replay file")).expect("json");
+    let case = &v["case"];
+    let src = case["source"].as_str().unwrap_or("").to_string();
+    let prelude = case["prelude"].as_bool().unwrap_or(false);
+    println!("key: {}", v["key"].as_str().unwrap_or("?"));
+    println!("source:\n{}", src);
+    match case["check"].as_str() {
+        Some("robust") => {
+            let job = Job {
+                prog: 0,
+                same: case["same"].as_bool().unwrap_or(false),
+                expect: None,
+                fmt: Fmt::parse(case["format"].as_str().unwrap_or("json")),
+                api: Api::parse(case["api"].as_str().unwrap_or("run_expr")),
+                bare: case["bare"].as_bool().unwrap_or(false),
+                prelude,
+                deps: case["deps"].as_array().map(|a| a.iter().filter_map(|x| x.as_str().map(|s| s.to_string())).collect()).unwrap_or_default(),
+                class: case["class"].as_str().unwrap_or("").to_string(),
+                detail: case["detail"].as_str().unwrap_or("").to_string(),
+                bytes: unhex(case["payload_hex"].as_str().unwrap_or("")),
+            };
+            println!("corruption: {} ({})", job.class, job.detail);
+            let mut child = None;
+            let r = run_job(&mut child, &job, 1, Duration::from_secs(20));
+            println!("observed now: {:?}", r);
+            println!("expected: Err(..) or a clean runtime error");
+        }
+        _ => {
+            let vm = new_vm(prelude);
+            let out = mg::run::run(&vm, &src);
+            println!("from source: {}", out.canonical());
+            let fmt = Fmt::parse(case["format"].as_str().unwrap_or("json"));
+            let api = Api::parse(case["api"].as_str().unwrap_or("run_expr"));
+            match compile(&vm, &src, fmt) {
+                Ok(b) => {
+                    let target = if case["vm"].as_str() == Some("same") {
+                        vm.clone()
+                    } else {
+                        let t = new_vm(prelude);
+                        if let Ok(jb) = compile(&vm, &src, Fmt::Json) {
+                            if let Ok(tree) = serde_json::from_slice::<serde_json::Value>(&jb) {
+                                preload(&t, &deps_of(&tree));
+                            }
+                        }
+                        t
+                    };
+                    match load(&target, fmt, api, &b, &|t, v| mg::value::canon(t, v)) {
+                        Loaded::Out(o) => println!("loaded ({} / {} / {} vm): {}", fmt.name(), api.name(), case["vm"].as_str().unwrap_or("fresh"), o.canonical()),
+                        Loaded::Panic(m) => println!("loaded: PANIC {}", m),
+                    }
+                }
+                Err(CompileError::FrontEnd(m)) => println!("compile: front end error {}", m),
+                Err(CompileError::Ser(m)) => println!("compile: serialiser error {}", m),
+            }
+            println!("expected (recorded): {}", v["expected"].as_str().unwrap_or("?"));
+            println!("observed (recorded): {}", v["observed"].as_str().unwrap_or("?"));
         }
     }
 }
